@@ -334,14 +334,20 @@ def consumer_tables(rep, regs):
             return None
         sites = []
         for fn in m.funcs.values():
-            if fn.name not in ('validate',) and not any(isinstance(x, ast.Raise) for x in ast.walk(fn)):
-                continue
             for n in ast.walk(fn):
                 if isinstance(n, ast.If) and isinstance(n.test, ast.Compare) and len(n.test.ops) == 1 and isinstance(n.test.ops[0], ast.NotIn) \
                         and any(isinstance(b, ast.Raise) for b in n.body):
                     k, (tn, keys) = prefix(n.test.left), table(n.test.comparators[0])
                     if k and keys and len(next(iter(keys))) == k:
                         sites.append((fn, n, k, tn, keys, 'rejects'))
+                if isinstance(n, ast.If) and isinstance(n.test, ast.Compare) and len(n.test.ops) == 1 and isinstance(n.test.ops[0], ast.In):
+                    # `if number[:k] in TABLE: <registry lookup>` with no lookup on the other branch
+                    def looks_up(stmts):
+                        return any(isinstance(c, ast.Call) and isinstance(c.func, ast.Attribute) and c.func.attr in ('info', 'split')
+                                   for st in stmts for c in ast.walk(st))
+                    k, (tn, keys) = prefix(n.test.left), table(n.test.comparators[0])
+                    if k and keys and len(next(iter(keys))) == k and looks_up(n.body) and not looks_up(n.orelse):
+                        sites.append((fn, n, k, tn, keys, 'skips the registry lookup for'))
                 if isinstance(n, ast.Subscript) and isinstance(n.ctx, ast.Load) and not isinstance(n.slice, ast.Slice):
                     k, (tn, keys) = prefix(n.slice), table(n.value)
                     if k and keys and len(next(iter(keys))) == k:
